@@ -184,14 +184,20 @@ func VH_C03_pattern(kind, nfacts, parent int) {
 	for i := 0; i < nfacts; i++ {
 		fact := Map{"a": vsymNum("f"+strconv.Itoa(i)+".a", 0, 2), "b": vsymNum("f"+strconv.Itoa(i)+".b", 0, 2)}
 		target, where := here, 0
-		if parent == 1 && i == 1 {
+		id := "id" + strconv.Itoa(i)
+		if parent >= 1 && i == 1 {
 			target, where = up, 1
+			if parent == 2 {
+				// fact ids are per location: the parent's fact carries the same id
+				// as a local one and is still a separate fact
+				id = "id0"
+			}
 		}
-		_, err := target.AddFact(f.ctx, "id"+strconv.Itoa(i), fact)
+		_, err := target.AddFact(f.ctx, id, fact)
 		vassume(err == nil)
 		facts = append(facts, stored{fact, where})
 	}
-	if parent == 1 {
+	if parent >= 1 {
 		f.setParentsNamed(0, []string{"l1"})
 	}
 	// pattern {a:?x, b:?y} with ?x bound by the incoming binding
